@@ -541,3 +541,47 @@ Example c07_refine_nonvacuous :
   option_map (fun x => av_ph (ast_view (AstDEnq 0 0 0) 0 x)) (nth_error (ast_tasks s3) 0) = Some (AvEnq 1) /\
   option_map (fun x => av_ph (ast_view (AstDSelect 0 0 0) 0 x)) (nth_error (ast_tasks s4) 0) = Some (AvWait 1).
 Proof. vm_compute. repeat split. Qed.
+
+(* ------------------------------------------------------------------------------------------------
+   The owner drops the pool while tasks are outstanding (models/AntsDrop.v; fix 83eb87d): the wrapper NewPool returns is
+   reachable through the caller's handle and through the owner field of every unfinished task; the finalizer (after
+   which the pool's goroutines may leave at any select, so that an attempt handed over is never started and a queued
+   task never picked) is enabled only when nothing references the wrapper.  For every history of Send (any retry
+   count), Drop, collections at any point, picks, handler starts and attempt decisions: the pool is closed only when the
+   caller has dropped it AND every task it ever accepted is finished -- and every unfinished task holds the pool. *)
+From Got Require Import AntsDrop AntsDropProofs.
+
+Theorem ants_pool_never_closed_while_tasks_outstanding :
+  forall evs, let s := pd_run PdFixed pd_init evs in
+    pd_closed s = true -> pd_handle s = false /\ pd_all_done s = true.
+Proof. exact pd_never_closed_while_outstanding. Qed.
+Print Assumptions ants_pool_never_closed_while_tasks_outstanding.
+
+Theorem ants_unfinished_task_holds_pool :
+  forall evs x, let s := pd_run PdFixed pd_init evs in
+    In x (pd_tasks s) -> pt_ph x <> PdDone -> pt_owner x = true.
+Proof. exact pd_unfinished_holds_pool. Qed.
+Print Assumptions ants_unfinished_task_holds_pool.
+
+(* the code before 83eb87d (tasks reference the inner object only): closed with a task still queued *)
+Theorem ants_pool_drop_orig_refuted :
+  let s := pd_run PdOrig pd_init [PdSend 1; PdDrop; PdFinalize]%nat in
+  pd_closed s = true /\ map pt_ph (pd_tasks s) = [PdQueued].
+Proof. exact pd_orig_refuted. Qed.
+Print Assumptions ants_pool_drop_orig_refuted.
+
+(* "no further attempt will be handed to the pool, release it before the last attempt": closed while that very attempt
+   waits for an inner goroutine (R = 1: from the pick on; R = 2: after the first attempt failed) *)
+Theorem ants_release_before_last_attempt_refuted :
+  (let s := pd_run PdReleaseBeforeLast pd_init [PdSend 1; PdPick 0; PdDrop; PdFinalize]%nat in
+   pd_closed s = true /\ map pt_ph (pd_tasks s) = [PdWaiting 1]) /\
+  (let s := pd_run PdReleaseBeforeLast pd_init [PdSend 2; PdPick 0; PdDrop; PdFinalize; PdStart 0; PdEnd 0 false; PdFinalize]%nat in
+   pd_closed s = true /\ map pt_ph (pd_tasks s) = [PdWaiting 2]).
+Proof. exact (conj pd_release_before_last_refuted pd_release_before_last_refuted_retry). Qed.
+Print Assumptions ants_release_before_last_attempt_refuted.
+
+Example ants_pool_drop_nonvacuous :
+  let s1 := pd_run PdFixed pd_init [PdSend 2; PdPick 0; PdDrop; PdFinalize; PdStart 0; PdEnd 0 false; PdFinalize]%nat in
+  let s2 := pd_run PdFixed s1 [PdStart 0; PdEnd 0 true; PdFinalize]%nat in
+  pd_closed s1 = false /\ map pt_ph (pd_tasks s1) = [PdWaiting 2] /\ pd_closed s2 = true /\ map pt_ph (pd_tasks s2) = [PdDone].
+Proof. exact pd_fixed_same_history. Qed.
